@@ -82,6 +82,8 @@ class World:
             if r is not NotImplemented: return r
         if is_plain(v) and not isinstance(v, enum.Enum):
             return dict(neg=operator.neg, pos=operator.pos, invert=operator.invert)[name](v)
+        if isinstance(v, enum.Flag) and name == 'invert':
+            return ~v                      # complement of a concrete enum.Flag member: pure
         raise Outside(f'native unop {name} on {type(v).__name__}')
     def native_compare(self, name, a, b, it):
         ops = dict(Eq=operator.eq, NotEq=operator.ne, Lt=operator.lt, LtE=operator.le, Gt=operator.gt, GtE=operator.ge)
